@@ -2,49 +2,1218 @@
 //! (membership discipline), C13 (flow control), C15 (snapshots), C16 (pre-vote),
 //! C17 (transfer). Hooks are `b_*` methods on `Mon`.
 
-use std::collections::HashMap;
+use std::collections::{BTreeMap, HashMap, HashSet};
 
-use raft::eraftpb::{ConfState, Entry, Message, Snapshot};
-use raft::{LightReady, Ready};
+use protobuf::Message as PbMessage;
+use raft::eraftpb::{ConfChange, ConfChangeV2, ConfState, Entry, EntryType, HardState, Message, MessageType, Snapshot};
+use raft::{LightReady, ProgressState, Ready, StateRole};
 
-use crate::case::{Scenario, NN};
+use crate::case::{CcSpec, Scenario, NN};
 use crate::mon::*;
 use crate::obs::*;
 use crate::store::AppState;
-use crate::world::{CallKind, CaseStats, Node};
+use crate::world::{CallKind, CaseStats, Node, World};
+
+#[derive(Default, Clone)]
+pub struct NodeB {
+    // ---- C07
+    pub next_apply: u64,
+    pub readies: u32,
+    pub last_hs: HardState,
+    pub handed_persist: HashMap<u64, u64>,
+    pub pending_at_crash: bool,
+    // ---- C13 uncommitted bytes
+    pub lead_tail: u64,
+    pub u_true: u64,
+    pub ent_len: HashMap<u64, u64>,
+    pub u_before_propose: u64,
+    // ---- C13 cap model: (cap_now, cap_old)
+    pub caps: HashMap<u64, (usize, usize)>,
+    // ---- C15 leader side: expected minimal anchor after a finished snapshot
+    pub min_anchor: HashMap<u64, u64>,
+    // ---- C16
+    pub prevote_grants: HashSet<u64>,
+    // ---- C17
+    pub transfer_ticks: (u64, usize),
+}
 
 #[derive(Default)]
 pub struct MonB {
-    pub reads: HashMap<Vec<u8>, (usize, u64, usize)>,
+    pub nb: Vec<NodeB>,
+    /// ctx -> (issuer, maxcommit at issue, leaders seen at issue, forwarded)
+    pub reads: HashMap<Vec<u8>, (usize, u64, usize, bool)>,
+    pub partition_events: u32,
+    pub hb_resp_dup: bool,
     pub trunc_since_ready: Vec<bool>,
+    /// index -> configuration after applying that index (first report wins)
+    pub conf_hist: BTreeMap<u64, ConfView>,
+    pub conf_applied_by: HashMap<u64, HashSet<usize>>,
+    pub last_advance: Option<(NodeObs, NodeObs)>,
+    pub prevote_roles_seen: HashSet<u8>,
+    pub snap_installed_on: HashSet<usize>,
+    pub max_inflight_cfg: Vec<usize>,
+    pub max_uncommitted_cfg: Vec<u64>,
+    pub pre_vote: bool,
+    pub last_propose_size: u64,
+    pub last_propose_normal_only: bool,
+    pub reads_answered: u32,
+    /// (was leader, member, not transferring, true outstanding bytes, proposal bytes) of the last plain propose
+    pub last_propose_ctx: Option<(bool, bool, bool, u64, u64)>,
 }
 
 impl MonB {
-    pub fn init(&mut self, _sc: &Scenario) {
+    pub fn init(&mut self, sc: &Scenario) {
+        self.nb = vec![NodeB::default(); NN];
         self.trunc_since_ready = vec![false; NN];
+        self.max_inflight_cfg = sc.nodes.iter().map(|n| n.max_inflight).collect();
+        self.max_uncommitted_cfg = sc.nodes.iter().map(|n| n.max_uncommitted).collect();
+        self.pre_vote = sc.pre_vote;
     }
-    pub fn on_dup(&mut self, _m: &Message) {}
+    pub fn on_dup(&mut self, m: &Message) {
+        if m.get_msg_type() == MessageType::MsgHeartbeatResponse {
+            self.hb_resp_dup = true;
+        }
+    }
     pub fn on_truncation(&mut self, ni: usize) {
         self.trunc_since_ready[ni] = true;
     }
-    pub fn before_propose(&mut self, _ni: usize, _data: &[u8]) {}
+    pub fn before_propose(&mut self, ni: usize, data: &[u8]) {
+        self.last_propose_size = data.len() as u64;
+        self.last_propose_normal_only = true;
+        self.nb[ni].u_before_propose = self.nb[ni].u_true;
+    }
     pub fn on_compact(&mut self, _ni: usize, _to: u64) {}
+
+    fn conf_lookup(&self, idx: u64) -> Option<&ConfView> {
+        self.conf_hist.range(..=idx).next_back().map(|(_, v)| v)
+    }
+}
+
+fn cc_of_entry(e: &Entry) -> Option<ConfChangeV2> {
+    match e.get_entry_type() {
+        EntryType::EntryConfChange => {
+            let mut cc = ConfChange::default();
+            cc.merge_from_bytes(&e.data).ok()?;
+            Some(raft_proto::ConfChangeI::into_v2(cc))
+        }
+        EntryType::EntryConfChangeV2 => {
+            let mut cc = ConfChangeV2::default();
+            cc.merge_from_bytes(&e.data).ok()?;
+            Some(cc)
+        }
+        _ => None,
+    }
+}
+
+/// For a proposing call: per proposed entry `Some(want_leave)` for conf changes, `None` for normal entries.
+fn proposed_items(kind: &CallKind) -> Option<Vec<Option<bool>>> {
+    let of_spec = |s: &CcSpec| -> Option<bool> {
+        let (_, v2) = World::build_cc(s);
+        Some(v2.changes.is_empty())
+    };
+    match kind {
+        CallKind::Propose { .. } => Some(vec![None]),
+        CallKind::ProposeConf(s) => Some(vec![of_spec(s)]),
+        CallKind::ProposeBatch(items) => Some(items.iter().map(|i| i.as_ref().and_then(of_spec)).collect()),
+        CallKind::Step(m) if m.get_msg_type() == MessageType::MsgPropose => Some(
+            m.entries
+                .iter()
+                .map(|e| cc_of_entry(e).map(|cc| cc.changes.is_empty()))
+                .collect(),
+        ),
+        _ => None,
+    }
+}
+
+fn quorum_of(conf: &ConfView, set: &HashSet<u64>) -> bool {
+    for half in [&conf.voters, &conf.outgoing] {
+        if half.is_empty() {
+            continue;
+        }
+        let yes = half.iter().filter(|v| set.contains(v)).count();
+        if yes < half.len() / 2 + 1 {
+            return false;
+        }
+    }
+    !conf.voters.is_empty() || !conf.outgoing.is_empty()
+}
+
+fn pr_of(o: &NodeObs, id: u64) -> Option<&PrView> {
+    o.prs.iter().find(|p| p.id == id)
 }
 
 impl Mon {
-    pub fn b_on_start(&mut self, _ni: usize, _post: &NodeObs, _nodes: &[Node], _first: bool, _op: usize) {}
-    pub fn b_on_crash(&mut self, _ni: usize, _nodes: &[Node], _op: usize) {}
+    // ------------------------------------------------------------------ start / crash
+
+    pub fn b_on_start(&mut self, ni: usize, post: &NodeObs, nodes: &[Node], first: bool, op: usize) {
+        let applied = nodes[ni].disk.app.applied;
+        let nb = &mut self.b.nb[ni];
+        nb.next_apply = applied + 1;
+        nb.last_hs = nodes[ni].rn.as_ref().unwrap().raft.hard_state();
+        nb.handed_persist.clear();
+        nb.lead_tail = 0;
+        nb.u_true = 0;
+        nb.caps.clear();
+        nb.min_anchor.clear();
+        nb.prevote_grants.clear();
+        nb.transfer_ticks = (0, 0);
+        if !first && nb.pending_at_crash {
+            self.flags |= F_RESTART_MID_BATCH;
+        }
+        // C09 (c): configuration after restart is the configuration of the applied index
+        if self.on(P09) || self.on(P15) {
+            if !first && post.conf.is_joint() {
+                self.flags |= F_JOINT_RESTORED;
+            }
+            self.check_conf_at(ni, applied, &post.conf, "restart", op);
+        }
+    }
+
+    pub fn b_on_crash(&mut self, ni: usize, nodes: &[Node], _op: usize) {
+        let n = &nodes[ni];
+        self.b.nb[ni].pending_at_crash = !n.to_apply.is_empty() || !n.batches.is_empty();
+    }
+
+    fn check_conf_at(&mut self, ni: usize, idx: u64, conf: &ConfView, how: &str, op: usize) {
+        if idx == 0 && conf.is_empty() {
+            return;
+        }
+        let prop = if self.on(P09) { "C09" } else { "C15" };
+        match self.b.conf_lookup(idx) {
+            Some(want) => {
+                if want != conf {
+                    let want = want.clone();
+                    self.violation(
+                        prop,
+                        "config-differs-at-applied-index",
+                        format!(
+                            "node {} ({}) at applied index {} has configuration {:?} but the applied log determines {:?}",
+                            ni + 1, how, idx, conf, want
+                        ),
+                        op,
+                    );
+                }
+            }
+            None => {}
+        }
+    }
+
+    // ------------------------------------------------------------------ messages
+
     pub fn b_on_new_msg(&mut self, _ni: usize, _m: &Message, _meta: &MsgMeta, _pre: &NodeObs, _op: usize) {}
-    pub fn b_before_deliver(&mut self, _ni: usize, _m: &Message, _meta: &MsgMeta, _nodes: &[Node], _op: usize) {}
-    pub fn b_after_call(&mut self, _ni: usize, _kind: &CallKind, _pre: &NodeObs, _post: &NodeObs, _nodes: &[Node], _op: usize) {}
-    pub fn b_on_release(&mut self, _ni: usize, _m: &Message, _meta: &MsgMeta, _nodes: &[Node], _op: usize) {}
-    pub fn b_on_ready(&mut self, _ni: usize, _rd: &Ready, _is_async: bool, _nodes: &[Node], _op: usize) {}
-    pub fn b_on_light_ready(&mut self, _ni: usize, _l: &LightReady, _nodes: &[Node], _op: usize) {}
-    pub fn b_on_apply(&mut self, _ni: usize, _e: &Entry, _applied_before: u64, _nodes: &[Node], _op: usize) {}
-    pub fn b_after_apply(&mut self, _ni: usize, _e: &Entry, _new_conf: Option<&ConfState>, _app: &AppState, _nodes: &[Node], _op: usize) {}
-    pub fn b_on_snapshot_installed(&mut self, _ni: usize, _s: &Snapshot, _nodes: &[Node], _op: usize) {}
-    pub fn b_on_propose_result(&mut self, _ni: usize, _ok: bool, _op: usize) {}
-    pub fn b_on_read_issued(&mut self, _ni: usize, _ctx: &[u8], _nodes: &[Node], _op: usize) {}
+
+    pub fn b_before_deliver(&mut self, ni: usize, m: &Message, _meta: &MsgMeta, nodes: &[Node], _op: usize) {
+        let t = m.get_msg_type();
+        if t == MessageType::MsgRequestPreVote {
+            if let Some(rn) = nodes[ni].rn.as_ref() {
+                self.b.prevote_roles_seen.insert(rn.raft.state as u8);
+                if self.b.prevote_roles_seen.len() >= 2 {
+                    self.flags |= F_PREVOTE_NONTRIVIAL;
+                }
+            }
+        }
+        if t == MessageType::MsgAppend && self.b.snap_installed_on.contains(&ni) {
+            self.flags |= F_SNAP_THEN_APPEND;
+        }
+    }
+
+    pub fn b_on_release(&mut self, ni: usize, m: &Message, _meta: &MsgMeta, _nodes: &[Node], op: usize) {
+        // C15 leader side: first append after a finished snapshot is anchored at or after it
+        if self.on(P15) && m.get_msg_type() == MessageType::MsgAppend {
+            if let Some(min) = self.b.nb[ni].min_anchor.remove(&m.to) {
+                if m.index < min {
+                    self.violation(
+                        "C15",
+                        "append-anchored-before-finished-snapshot",
+                        format!(
+                            "leader {} resumed replication to {} with an append anchored at {} after a snapshot at {} was reported finished",
+                            ni + 1, m.to, m.index, min
+                        ),
+                        op,
+                    );
+                }
+            }
+        }
+    }
+
+    // ------------------------------------------------------------------ after every call
+
+    pub fn b_after_call(&mut self, ni: usize, kind: &CallKind, pre: &NodeObs, post: &NodeObs, nodes: &[Node], op: usize) {
+        let id = (ni + 1) as u64;
+        let rn = match nodes[ni].rn.as_ref() {
+            Some(r) => r,
+            None => return,
+        };
+        if matches!(kind, CallKind::Advance | CallKind::AdvanceAppend) {
+            self.b.last_advance = Some((pre.clone(), post.clone()));
+        }
+        // became leader: reset leadership-scoped ghost
+        if post.role == StateRole::Leader && (pre.role != StateRole::Leader || pre.term != post.term) {
+            let nb = &mut self.b.nb[ni];
+            nb.lead_tail = post.last_index.saturating_sub(1);
+            nb.u_true = 0;
+            nb.min_anchor.clear();
+            nb.transfer_ticks = (0, 0);
+        }
+
+        // ------------------------------------------------ C07: ready/advance never change the logical log
+        if self.on(P07)
+            && matches!(kind, CallKind::Ready | CallKind::AdvanceAppend | CallKind::AdvanceAsync | CallKind::OnPersist(_))
+            && pre.log != post.log
+        {
+            self.violation(
+                "C07",
+                "log-changed-by-ready-or-advance",
+                format!("node {}: {} changed the logical log (storage + unstable)", id, kind.name()),
+                op,
+            );
+        }
+
+        // ------------------------------------------------ C09
+        if self.on(P09) {
+            self.c09_after_call(ni, kind, pre, post, op);
+        }
+        // ------------------------------------------------ C16
+        if self.on(P16) {
+            self.c16_after_call(ni, kind, pre, post, op);
+        }
+        // ------------------------------------------------ C17
+        if self.on(P17) {
+            self.c17_after_call(ni, kind, pre, post, nodes, op);
+        }
+        // ------------------------------------------------ C15 follower side
+        if self.on(P15) {
+            self.c15_after_call(ni, kind, pre, post, op);
+        }
+        // ------------------------------------------------ C13
+        if self.on(P13) || self.on(P15) || self.on(P17) {
+            let drained = matches!(kind, CallKind::Ready | CallKind::Advance | CallKind::AdvanceAppend);
+            if !drained && post.msgs_len >= pre.msgs_len {
+                let msgs: Vec<Message> = rn.raft.msgs[pre.msgs_len.min(rn.raft.msgs.len())..].to_vec();
+                self.leader_msgs(ni, kind, &msgs, pre, post, nodes, op);
+            }
+        }
+        if self.on(P13) {
+            self.c13_uncommitted(ni, kind, pre, post, nodes, op);
+        }
+    }
+
+    // ------------------------------------------------------------------ C09
+
+    fn c09_after_call(&mut self, ni: usize, kind: &CallKind, pre: &NodeObs, post: &NodeObs, op: usize) {
+        let id = (ni + 1) as u64;
+        // (a) what a leader appends
+        if pre.role == StateRole::Leader && post.role == StateRole::Leader && pre.term == post.term && post.last_index > pre.last_index {
+            let applied = match kind {
+                CallKind::AdvanceApply(_) | CallKind::Advance => post.applied,
+                _ => pre.applied,
+            };
+            let items = proposed_items(kind);
+            if items.is_some() && (pre.pending_conf_index > pre.applied || pre.conf.is_joint()) {
+                if items.as_ref().unwrap().iter().any(|i| i.is_some()) {
+                    self.flags |= F_CONF_WHILE_PENDING;
+                }
+            }
+            let mut joint_now = pre.conf.is_joint();
+            let _ = &mut joint_now;
+            for j in (pre.last_index + 1)..=post.last_index {
+                let ev = match post.log.get(j) {
+                    Some(e) => e,
+                    None => continue,
+                };
+                let k = (j - pre.last_index - 1) as usize;
+                let proposed = items.as_ref().and_then(|it| it.get(k).cloned()).flatten();
+                if ev.ty != 0 {
+                    // a membership entry was appended at j: nothing else may be pending before it
+                    for i in (applied.max(post.log.base) + 1)..j {
+                        if let Some(o) = post.log.get(i) {
+                            if o.ty != 0 {
+                                self.violation(
+                                    "C09",
+                                    "second-membership-entry-appended",
+                                    format!(
+                                        "leader {} appended a membership entry at {} while another one at {} is beyond its applied index {}",
+                                        id, j, i, applied
+                                    ),
+                                    op,
+                                );
+                                return;
+                            }
+                        }
+                    }
+                    if let Some(want_leave) = proposed {
+                        let joint = pre.conf.is_joint();
+                        if joint && !want_leave {
+                            self.violation("C09", "enter-joint-while-joint-kept", format!("leader {} kept a non-leave membership proposal at {} while its configuration is joint", id, j), op);
+                            return;
+                        }
+                        if !joint && want_leave {
+                            self.violation("C09", "leave-while-not-joint-kept", format!("leader {} kept a leave-joint proposal at {} while its configuration is not joint", id, j), op);
+                            return;
+                        }
+                    }
+                } else if let Some(want_leave) = proposed {
+                    // neutralised: must be justified
+                    let joint = pre.conf.is_joint();
+                    let earlier_conf_in_batch = items.as_ref().map_or(false, |it| it[..k].iter().any(|x| x.is_some()));
+                    let justified = pre.pending_conf_index > pre.applied
+                        || (joint && !want_leave)
+                        || (!joint && want_leave)
+                        || earlier_conf_in_batch;
+                    if !justified {
+                        self.violation(
+                            "C09",
+                            "membership-proposal-dropped-without-reason",
+                            format!("leader {} replaced a legal membership proposal at {} by an empty entry although nothing was pending", id, j),
+                            op,
+                        );
+                        return;
+                    }
+                }
+            }
+        }
+        // (b)+(d) a node starting an election
+        let starts = pre.role == StateRole::Follower
+            && matches!(post.role, StateRole::PreCandidate | StateRole::Candidate | StateRole::Leader)
+            && !matches!(kind, CallKind::Step(m) if !matches!(m.get_msg_type(), MessageType::MsgTimeoutNow));
+        if starts {
+            let lo = pre.applied.max(pre.pending_snapshot.map_or(0, |s| s.0)).max(pre.log.base);
+            for i in (lo + 1)..=pre.committed {
+                if let Some(e) = pre.log.get(i) {
+                    if e.ty != 0 {
+                        self.violation(
+                            "C09",
+                            "election-with-unapplied-membership-change",
+                            format!(
+                                "node {} started an election ({}) while the committed membership change at {} is unapplied (applied {})",
+                                id, kind.name(), i, pre.applied
+                            ),
+                            op,
+                        );
+                        return;
+                    }
+                }
+            }
+            let by_itself = matches!(kind, CallKind::Tick) || matches!(kind, CallKind::Step(m) if m.get_msg_type() == MessageType::MsgTimeoutNow);
+            if by_itself && !pre.conf.is_voter(id) {
+                self.violation(
+                    "C09",
+                    "non-voter-started-election",
+                    format!("node {} is not a voter of its configuration {:?} but started an election on {}", id, pre.conf, kind.name()),
+                    op,
+                );
+            }
+        }
+    }
+
+    // ------------------------------------------------------------------ C16
+
+    fn c16_after_call(&mut self, ni: usize, kind: &CallKind, pre: &NodeObs, post: &NodeObs, op: usize) {
+        let id = (ni + 1) as u64;
+        if let CallKind::Step(m) = kind {
+            if m.get_msg_type() == MessageType::MsgRequestPreVote && (pre.term != post.term || pre.vote != post.vote) {
+                self.violation(
+                    "C16",
+                    "prevote-request-changed-term-or-vote",
+                    format!(
+                        "node {}: handling a pre-vote request from {} changed (term, vote) from ({}, {}) to ({}, {})",
+                        id, m.from, pre.term, pre.vote, post.term, post.vote
+                    ),
+                    op,
+                );
+            }
+        }
+        if !self.b.pre_vote {
+            return;
+        }
+        // tally of granted pre-votes since this node last became pre-candidate
+        let became_pre = post.role == StateRole::PreCandidate && (pre.role != StateRole::PreCandidate);
+        if became_pre {
+            self.b.nb[ni].prevote_grants.clear();
+        }
+        let mut granted_now = false;
+        if let CallKind::Step(m) = kind {
+            if m.get_msg_type() == MessageType::MsgRequestPreVoteResponse
+                && !m.reject
+                && pre.role == StateRole::PreCandidate
+                && m.term >= pre.term
+            {
+                // a grant with m.term == pre.term answers an earlier round of this node; the
+                // crate (like etcd/raft) counts it, and the statement does not exclude it
+                self.b.nb[ni].prevote_grants.insert(m.from);
+                granted_now = true;
+            }
+        }
+        let _ = granted_now;
+        if pre.role == StateRole::PreCandidate && post.role == StateRole::Follower && post.term == pre.term {
+            self.flags |= F_PREVOTE_NONTRIVIAL;
+        }
+        if post.term > pre.term {
+            let mut allowed = false;
+            if let CallKind::Step(m) = kind {
+                let t = m.get_msg_type();
+                let exempt = t == MessageType::MsgRequestPreVote || (t == MessageType::MsgRequestPreVoteResponse && !m.reject);
+                if m.term > pre.term && !exempt {
+                    allowed = true;
+                }
+                if t == MessageType::MsgTimeoutNow {
+                    allowed = true;
+                }
+            }
+            if !allowed {
+                let mut set = self.b.nb[ni].prevote_grants.clone();
+                set.insert(id);
+                if post.term == pre.term + 1 && quorum_of(&pre.conf, &set) {
+                    allowed = true;
+                }
+            }
+            if !allowed {
+                self.violation(
+                    "C16",
+                    "term-raised-without-prevote-quorum",
+                    format!(
+                        "node {} raised its term {} -> {} in {} without a pre-vote quorum (grants {:?}) and without being told of a higher term",
+                        id, pre.term, post.term, kind.name(), self.b.nb[ni].prevote_grants
+                    ),
+                    op,
+                );
+            }
+        }
+    }
+
+    // ------------------------------------------------------------------ C17
+
+    fn c17_after_call(&mut self, ni: usize, kind: &CallKind, pre: &NodeObs, post: &NodeObs, _nodes: &[Node], op: usize) {
+        let id = (ni + 1) as u64;
+        let leader_both = pre.role == StateRole::Leader && post.role == StateRole::Leader && pre.term == post.term;
+        // proposals refused while a transfer is pending
+        if pre.role == StateRole::Leader && pre.transferee.is_some() && proposed_items(kind).is_some() {
+            if post.log != pre.log {
+                self.violation(
+                    "C17",
+                    "proposal-accepted-during-transfer",
+                    format!("leader {} appended a proposal while transferring leadership to {:?}", id, pre.transferee),
+                    op,
+                );
+            }
+        }
+        // transfer requests
+        let req: Option<u64> = match kind {
+            CallKind::Transfer(t) => Some(*t),
+            // (a forwarded request stamped with a lower term is dropped before it reaches the leader logic)
+            CallKind::Step(m) if m.get_msg_type() == MessageType::MsgTransferLeader && (m.term == 0 || m.term >= pre.term) => Some(m.from),
+            _ => None,
+        };
+        if let (Some(t), true) = (req, leader_both) {
+            let is_learner = pre.conf.learners.contains(&t);
+            let has_pr = pr_of(pre, t).is_some();
+            if matches!(kind, CallKind::Step(_)) {
+                self.flags |= F_TRANSFER_NONTRIVIAL;
+            }
+            if is_learner || !has_pr {
+                if post.transferee != pre.transferee || post.msgs_len != pre.msgs_len {
+                    self.violation(
+                        "C17",
+                        "transfer-to-learner-or-unknown-not-ignored",
+                        format!("leader {}: a transfer request naming {} (learner: {}, tracked: {}) changed its state", id, t, is_learner, has_pr),
+                        op,
+                    );
+                }
+            } else if t == id {
+                if post.transferee.is_some() {
+                    self.violation("C17", "transfer-to-self-left-pending", format!("leader {}: a transfer request naming itself left a transfer pending ({:?})", id, post.transferee), op);
+                }
+            } else {
+                if let Some(p) = pr_of(pre, t) {
+                    if p.matched < pre.last_index {
+                        self.flags |= F_TRANSFER_NONTRIVIAL;
+                    }
+                }
+                if pre.transferee.is_some() && pre.transferee != Some(t) {
+                    self.flags |= F_TRANSFER_NONTRIVIAL;
+                }
+            }
+        }
+        // abandon after one election timeout
+        if matches!(kind, CallKind::Tick) && leader_both {
+            let nb = &mut self.b.nb[ni];
+            match (pre.transferee, post.transferee) {
+                (Some(a), Some(b)) if a == b => {
+                    if nb.transfer_ticks.0 == a {
+                        nb.transfer_ticks.1 += 1;
+                    } else {
+                        nb.transfer_ticks = (a, 1);
+                    }
+                    if nb.transfer_ticks.1 > self.election_tick {
+                        let n = nb.transfer_ticks.1;
+                        self.violation(
+                            "C17",
+                            "transfer-not-abandoned",
+                            format!("leader {} kept a transfer to {} pending for {} of its own ticks (election timeout {})", id, a, n, self.election_tick),
+                            op,
+                        );
+                    }
+                }
+                (Some(_), None) => {
+                    self.flags |= F_TRANSFER_NONTRIVIAL;
+                    nb.transfer_ticks = (0, 0);
+                }
+                _ => nb.transfer_ticks = (0, 0),
+            }
+        } else if pre.transferee != post.transferee {
+            self.b.nb[ni].transfer_ticks = (post.transferee.unwrap_or(0), 0);
+        }
+        // target leaves the voters
+        if matches!(kind, CallKind::ApplyConf) && post.role == StateRole::Leader {
+            if let Some(x) = pre.transferee {
+                // (a leader that removed itself in the same change is the separate matter F4)
+                if !post.conf.is_voter(x) && post.transferee.is_some() && post.conf.is_voter(id) {
+                    self.violation(
+                        "C17",
+                        "transfer-kept-after-target-left-voters",
+                        format!("leader {} still transfers to {} after applying a change that removed it from the voters", id, x),
+                        op,
+                    );
+                }
+            }
+        }
+    }
+
+    // ------------------------------------------------------------------ C15 follower side
+
+    fn c15_after_call(&mut self, ni: usize, kind: &CallKind, pre: &NodeObs, post: &NodeObs, op: usize) {
+        let id = (ni + 1) as u64;
+        if let CallKind::ReportSnapshot(f, ok) = kind {
+            if *ok && pre.role == StateRole::Leader {
+                if let Some(p) = pr_of(pre, *f) {
+                    if p.state == ProgressState::Snapshot && p.pending_snapshot > 0 {
+                        self.b.nb[ni].min_anchor.insert(*f, p.pending_snapshot);
+                    }
+                }
+            }
+        }
+        let m = match kind {
+            CallKind::Step(m) if m.get_msg_type() == MessageType::MsgSnapshot => m,
+            _ => return,
+        };
+        // only snapshots that reach the snapshot handler (not dropped for a lower term)
+        if m.term < pre.term {
+            return;
+        }
+        let meta = m.get_snapshot().get_metadata();
+        let (si, st) = (meta.index, meta.term);
+        let sconf = ConfView::from_cs(meta.get_conf_state());
+        let installed = post.pending_snapshot == Some((si, st)) && pre.pending_snapshot != post.pending_snapshot;
+        if installed {
+            if si < pre.committed {
+                self.violation("C15", "stale-snapshot-installed", format!("node {} installed a snapshot at {} behind its commit index {}", id, si, pre.committed), op);
+            }
+            if !sconf.is_member(id) {
+                self.violation("C15", "non-member-installed-snapshot", format!("node {} installed a snapshot whose configuration {:?} does not list it", id, sconf), op);
+            }
+            if post.committed != si || post.last_index != si || post.log.term(si) != Some(st) {
+                self.violation(
+                    "C15",
+                    "log-state-after-install",
+                    format!(
+                        "node {} after installing snapshot ({}, {}): commit {}, last index {}, boundary term {:?}",
+                        id, si, st, post.committed, post.last_index, post.log.term(si)
+                    ),
+                    op,
+                );
+            }
+            if post.conf != sconf {
+                self.violation("C15", "config-after-install", format!("node {} has configuration {:?} after installing a snapshot carrying {:?}", id, post.conf, sconf), op);
+            }
+            self.check_conf_at(ni, si, &post.conf, "snapshot install", op);
+            if sconf.is_joint() {
+                self.flags |= F_JOINT_RESTORED;
+            }
+        } else {
+            self.flags |= F_SNAP_IGNORED_OR_FF;
+            let matches_local = pre.log.term(si) == Some(st) && si >= pre.log.base;
+            if matches_local && pre.pending_request_snapshot == 0 && si >= pre.committed && sconf.is_member(id) && pre.role == StateRole::Follower {
+                if post.log != pre.log {
+                    self.violation("C15", "matching-snapshot-discarded-log", format!("node {}: a snapshot ({}, {}) matching its log changed the log", id, si, st), op);
+                }
+                if post.committed != pre.committed.max(si) {
+                    self.violation(
+                        "C15",
+                        "matching-snapshot-commit",
+                        format!("node {}: a snapshot ({}, {}) matching its log left commit at {} (was {})", id, si, st, post.committed, pre.committed),
+                        op,
+                    );
+                }
+            } else if post.log != pre.log {
+                self.violation("C15", "ignored-snapshot-changed-log", format!("node {}: an ignored snapshot ({}, {}) changed the log", id, si, st), op);
+            }
+        }
+    }
+
+    // ------------------------------------------------------------------ C13 / C15 / C17: messages a leader emits
+
+    fn leader_msgs(&mut self, ni: usize, kind: &CallKind, msgs: &[Message], pre: &NodeObs, post: &NodeObs, nodes: &[Node], op: usize) {
+        let id = (ni + 1) as u64;
+        if post.role != StateRole::Leader {
+            return;
+        }
+        let same_lead = pre.role == StateRole::Leader && pre.term == post.term;
+        let from: Option<u64> = match kind {
+            CallKind::Step(m) => Some(m.from),
+            CallKind::ReportSnapshot(f, _) | CallKind::ReportUnreachable(f) => Some(*f),
+            _ => None,
+        };
+        let mut appends_with_entries: HashMap<u64, usize> = HashMap::new();
+        let mut appends_any: HashMap<u64, usize> = HashMap::new();
+        for m in msgs {
+            match m.get_msg_type() {
+                MessageType::MsgAppend => {
+                    *appends_any.entry(m.to).or_insert(0) += 1;
+                    if !m.entries.is_empty() {
+                        *appends_with_entries.entry(m.to).or_insert(0) += 1;
+                    }
+                    if self.on(P13) {
+                        self.check_append_shape(ni, m, post, op);
+                    }
+                }
+                MessageType::MsgHeartbeat => {
+                    if self.on(P13) {
+                        let matched = pr_of(post, m.to).map_or(0, |p| p.matched);
+                        if m.commit > post.committed.min(matched) {
+                            self.violation(
+                                "C13",
+                                "heartbeat-commit-too-high",
+                                format!("leader {} heartbeat to {} advertises commit {} > min(commit {}, acknowledged {})", id, m.to, m.commit, post.committed, matched),
+                                op,
+                            );
+                        }
+                    }
+                }
+                MessageType::MsgSnapshot => {
+                    if self.on(P15) {
+                        let p = pr_of(post, m.to);
+                        let requested = p.map_or(false, |p| p.pending_request_snapshot != 0);
+                        let unavailable = p.map_or(false, |p| p.next_idx <= post.log.base);
+                        if !requested && !unavailable {
+                            self.violation(
+                                "C15",
+                                "needless-snapshot",
+                                format!(
+                                    "leader {} sent a snapshot to {} although entries from next index {:?} are available (first retained {}) and none was requested",
+                                    id, m.to, p.map(|p| p.next_idx), post.log.base + 1
+                                ),
+                                op,
+                            );
+                        }
+                    }
+                }
+                MessageType::MsgTimeoutNow => {
+                    if self.on(P17) {
+                        let matched = pr_of(post, m.to).map_or(0, |p| p.matched);
+                        if matched != post.last_index {
+                            self.violation(
+                                "C17",
+                                "timeout-now-to-lagging-target",
+                                format!("leader {} told {} to campaign although it acknowledged {} of last index {}", id, m.to, matched, post.last_index),
+                                op,
+                            );
+                        }
+                    }
+                }
+                _ => {}
+            }
+        }
+        if !self.on(P13) {
+            return;
+        }
+        let _ = nodes;
+        // ---- flow control per follower
+        for p in &post.prs {
+            if p.id == id {
+                continue;
+            }
+            let f = p.id;
+            // capacity model
+            let cfg_cap = self.b.max_inflight_cfg[ni];
+            let caps = self.b.nb[ni].caps.entry(f).or_insert((cfg_cap, cfg_cap));
+            if p.ins_count == 0 {
+                caps.1 = caps.0;
+            }
+            let allowed = caps.0.max(caps.1);
+            if p.ins_full {
+                self.flags |= F_WINDOW_FULL;
+            }
+            if p.state == ProgressState::Replicate && p.ins_count > allowed {
+                self.violation(
+                    "C13",
+                    "inflight-window-exceeded",
+                    format!("leader {} tracks {} unacknowledged appends to {} but at most {} are allowed", id, p.ins_count, f, allowed),
+                    op,
+                );
+            }
+            let pp = match pr_of(pre, f) {
+                Some(pp) if same_lead => pp,
+                _ => continue,
+            };
+            let n_any = appends_any.get(&f).copied().unwrap_or(0);
+            let n_ent = appends_with_entries.get(&f).copied().unwrap_or(0);
+            let from_f = from == Some(f);
+            let neutral = !from_f && !matches!(kind, CallKind::Knob | CallKind::ApplyConf);
+            if pp.state == ProgressState::Snapshot && p.state == ProgressState::Snapshot && n_any > 0 {
+                self.violation("C13", "append-while-snapshot-outstanding", format!("leader {} sent an append to {} while a snapshot is outstanding", id, f), op);
+            }
+            if pp.state == ProgressState::Probe && pp.paused && neutral && n_any > 0 {
+                self.violation("C13", "append-while-probe-paused", format!("leader {} sent an append to {} whose probe is paused, in {}", id, f, kind.name()), op);
+            }
+            if pp.state == ProgressState::Probe && p.state == ProgressState::Probe && n_ent > 1 {
+                self.violation("C13", "several-appends-while-probing", format!("leader {} sent {} entry-carrying appends to {} while probing", id, n_ent, f), op);
+            }
+            if pp.state == ProgressState::Replicate && pp.ins_full && neutral && n_any > 0 {
+                self.violation("C13", "append-while-window-full", format!("leader {} sent an append to {} although the inflight window was full, in {}", id, f, kind.name()), op);
+            }
+            if pp.state == ProgressState::Replicate && p.state == ProgressState::Replicate && neutral {
+                // nothing can be freed in such a call: every entry-carrying append occupies a slot
+                if p.ins_count != pp.ins_count + n_ent && !post.batch_append {
+                    self.violation(
+                        "C13",
+                        "inflight-accounting",
+                        format!(
+                            "leader {}: {} entry-carrying appends to {} in {} but tracked unacknowledged count went {} -> {}",
+                            id, n_ent, f, kind.name(), pp.ins_count, p.ins_count
+                        ),
+                        op,
+                    );
+                }
+            }
+            if pp.next_idx > p.next_idx && from_f {
+                self.flags |= F_REJECT_MOVED_NEXT;
+            }
+        }
+    }
+
+    fn check_append_shape(&mut self, ni: usize, m: &Message, post: &NodeObs, op: usize) {
+        let id = (ni + 1) as u64;
+        let mut bad: Option<String> = None;
+        if m.index >= post.log.base && post.log.term(m.index) != Some(m.log_term) {
+            bad = Some(format!("anchored at ({}, {}) but the leader's log has term {:?} there", m.index, m.log_term, post.log.term(m.index)));
+        }
+        let mut size = 0u64;
+        for (k, e) in m.entries.iter().enumerate() {
+            let want_idx = m.index + 1 + k as u64;
+            if e.index != want_idx {
+                bad = Some(format!("entry #{} has index {} but the anchor {} requires {}", k, e.index, m.index, want_idx));
+                break;
+            }
+            if post.log.get(e.index) != Some(ev_of(e)) {
+                bad = Some(format!("entry at {} differs from the leader's own log", e.index));
+                break;
+            }
+            size += e.compute_size() as u64;
+        }
+        if bad.is_none() && m.commit > post.committed {
+            bad = Some(format!("advertises commit {} above the leader's commit {}", m.commit, post.committed));
+        }
+        if bad.is_none() && !post.batch_append && post.max_msg_size != u64::MAX && m.entries.len() > 1 && size > post.max_msg_size {
+            bad = Some(format!("carries {} entries of {} bytes, above max_size_per_msg {}", m.entries.len(), size, post.max_msg_size));
+        }
+        if let Some(b) = bad {
+            self.violation("C13", "malformed-append", format!("leader {} -> {}: append {}", id, m.to, b), op);
+        }
+    }
+
+    // ------------------------------------------------------------------ C13 uncommitted bytes
+
+    fn c13_uncommitted(&mut self, ni: usize, kind: &CallKind, pre: &NodeObs, post: &NodeObs, nodes: &[Node], op: usize) {
+        let id = (ni + 1) as u64;
+        if let CallKind::Knob = kind {
+            // capacity changes: remember the previous capacity until the window drains
+            for p in &post.prs {
+                let cfg_cap = self.b.max_inflight_cfg[ni];
+                let _ = self.b.nb[ni].caps.entry(p.id).or_insert((cfg_cap, cfg_cap));
+            }
+        }
+        if let CallKind::Propose { len } = kind {
+            self.b.last_propose_ctx = Some((
+                pre.role == StateRole::Leader,
+                pre.has_self_progress,
+                pre.transferee.is_none(),
+                self.b.nb[ni].u_true,
+                *len as u64,
+            ));
+        }
+        // progress objects that disappeared lose their capacity model
+        if post.role == StateRole::Leader {
+            let ids: HashSet<u64> = post.prs.iter().map(|p| p.id).collect();
+            self.b.nb[ni].caps.retain(|k, _| ids.contains(k));
+        }
+        if !(pre.role == StateRole::Leader && post.role == StateRole::Leader && pre.term == post.term) {
+            return;
+        }
+        if post.last_index > pre.last_index {
+            // entries this leader appended now
+            let rn = nodes[ni].rn.as_ref().unwrap();
+            let mut size = 0u64;
+            for e in &rn.raft.raft_log.unstable.entries {
+                if e.index > pre.last_index && e.index <= post.last_index {
+                    let l = e.data.len() as u64;
+                    self.b.nb[ni].ent_len.insert(e.index, l);
+                    size += l;
+                }
+            }
+            let max = self.b.max_uncommitted_cfg[ni];
+            let u = self.b.nb[ni].u_true;
+            if proposed_items(kind).is_some() && max != u64::MAX && !(size == 0 || u == 0 || u + size <= max) {
+                self.violation(
+                    "C13",
+                    "uncommitted-size-exceeded",
+                    format!(
+                        "leader {} accepted a proposal of {} payload bytes while {} accepted bytes are not yet handed out as committed (max_uncommitted_size {})",
+                        id, size, u, max
+                    ),
+                    op,
+                );
+            }
+            self.b.nb[ni].u_true += size;
+        }
+    }
+
+    pub fn b_on_propose_result(&mut self, ni: usize, ok: bool, op: usize) {
+        if !self.on(P13) || ok || !self.b.last_propose_normal_only {
+            self.b.last_propose_normal_only = false;
+            return;
+        }
+        self.b.last_propose_normal_only = false;
+        // refused although leader, member and not transferring: it can only be for size
+        if let Some((leader, member, no_transfer, u, size)) = self.b.last_propose_ctx.take() {
+            if leader && member && no_transfer && self.b.max_uncommitted_cfg[ni] != u64::MAX {
+                self.flags |= F_REFUSED_FOR_SIZE;
+                if size == 0 || u == 0 {
+                    self.violation(
+                        "C13",
+                        "proposal-refused-without-cause",
+                        format!(
+                            "leader {} refused a proposal of {} payload bytes while {} accepted bytes were outstanding (empty payloads and the first outstanding proposal must be admitted)",
+                            ni + 1, size, u
+                        ),
+                        op,
+                    );
+                }
+            }
+        }
+    }
+
+    pub fn on_cap_change(&mut self, ni: usize, target: u64, cap: usize, count_now: usize) {
+        let cfg_cap = self.b.max_inflight_cfg[ni];
+        let e = self.b.nb[ni].caps.entry(target).or_insert((cfg_cap, cfg_cap));
+        let old = e.0.max(e.1);
+        *e = (cap, if count_now > 0 { old } else { cap });
+        if count_now > 0 {
+            self.flags |= F_CAP_CHANGE_NONEMPTY;
+        }
+    }
+
+    // ------------------------------------------------------------------ ready / light ready
+
+    fn handed_out(&mut self, ni: usize, ents: &[Entry], what: &str, nodes: &[Node], op: usize) {
+        if ents.is_empty() {
+            return;
+        }
+        let id = (ni + 1) as u64;
+        let rn = nodes[ni].rn.as_ref().unwrap();
+        let role = rn.raft.state;
+        // C13 ghost: bytes handed out as committed while leader
+        if role == StateRole::Leader {
+            let nb = &mut self.b.nb[ni];
+            for e in ents {
+                if e.index > nb.lead_tail {
+                    let l = nb.ent_len.remove(&e.index).unwrap_or(0);
+                    nb.u_true = nb.u_true.saturating_sub(l);
+                }
+            }
+        }
+        if !(self.on(P07) || self.on(P15)) {
+            self.b.nb[ni].next_apply = ents.last().unwrap().index + 1;
+            return;
+        }
+        let prop = if self.on(P07) { "C07" } else { "C15" };
+        let log = log_view(rn);
+        let committed = rn.raft.raft_log.committed;
+        let mut expect = self.b.nb[ni].next_apply;
+        let mut size = 0u64;
+        let mut not_on_disk = 0u64;
+        for e in ents {
+            if e.index != expect {
+                self.violation(
+                    prop,
+                    "hand-out-gap-or-duplicate",
+                    format!("node {} {}: committed entry {} handed out but {} was expected next", id, what, e.index, expect),
+                    op,
+                );
+                break;
+            }
+            if log.get(e.index) != Some(ev_of(e)) {
+                self.violation(prop, "hand-out-differs-from-log", format!("node {} {}: handed-out entry {} differs from the node's log", id, what, e.index), op);
+                break;
+            }
+            if e.index > committed {
+                self.violation(prop, "hand-out-beyond-commit", format!("node {} {}: entry {} handed out above commit index {}", id, what, e.index, committed), op);
+                break;
+            }
+            let d = &nodes[ni].disk;
+            let on_disk = d.snap_index >= e.index || d.term_of(e.index) == Some(e.term);
+            if !on_disk {
+                not_on_disk += 1;
+            } else if not_on_disk > 0 {
+                // unpersisted entries must be the last ones
+                not_on_disk += 1;
+            }
+            size += e.compute_size() as u64;
+            expect += 1;
+        }
+        self.b.nb[ni].next_apply = expect;
+        if self.on(P07) {
+            let limit = if role == StateRole::Leader { rn.raft.raft_log.max_apply_unpersisted_log_limit } else { 0 };
+            if not_on_disk > limit {
+                self.violation(
+                    "C07",
+                    "unpersisted-entries-handed-out",
+                    format!(
+                        "node {} {}: {} handed-out committed entries are not on its disk (apply-before-persist limit {})",
+                        id, what, not_on_disk, limit
+                    ),
+                    op,
+                );
+            }
+            let max = rn.verif_view().max_committed_size_per_ready;
+            if max != u64::MAX && ents.len() > 1 && size > max {
+                self.violation(
+                    "C07",
+                    "pagination-exceeded",
+                    format!("node {} {}: {} committed entries of {} bytes in one batch, max_committed_size_per_ready {}", id, what, ents.len(), size, max),
+                    op,
+                );
+            }
+            let upper = committed.min(rn.raft.raft_log.persisted + limit);
+            if ents.last().unwrap().index < upper {
+                self.flags |= F_PAGINATION;
+            }
+        }
+    }
+
+    pub fn b_on_ready(&mut self, ni: usize, rd: &Ready, _is_async: bool, nodes: &[Node], op: usize) {
+        let id = (ni + 1) as u64;
+        let rn = nodes[ni].rn.as_ref().unwrap();
+        {
+            let nb = &mut self.b.nb[ni];
+            nb.readies += 1;
+            if nb.readies >= 3 {
+                self.flags |= F_THREE_READIES;
+            }
+        }
+        if nodes[ni].batches.len() >= 1 {
+            // this Ready will be outstanding together with at least one earlier one
+            self.flags |= F_MULTI_OUTSTANDING_READY;
+        }
+        if self.b.trunc_since_ready[ni] {
+            self.flags |= F_TRUNC_BETWEEN_READIES;
+            self.b.trunc_since_ready[ni] = false;
+        }
+        // ---- C08 read states
+        for rs in rd.read_states() {
+            self.on_read_state(ni, &rs.request_ctx, rs.index, op);
+        }
+        // ---- snapshot
+        if !rd.snapshot().is_empty() {
+            let si = rd.snapshot().get_metadata().index;
+            if self.on(P07) && !rd.committed_entries().is_empty() {
+                self.violation("C07", "snapshot-ready-with-committed-entries", format!("node {}: a Ready carries a snapshot at {} and committed entries", id, si), op);
+            }
+            self.b.nb[ni].next_apply = si + 1;
+            self.b.nb[ni].handed_persist.clear();
+        }
+        // ---- committed entries
+        let ce: Vec<Entry> = rd.committed_entries().clone();
+        self.handed_out(ni, &ce, "Ready", nodes, op);
+        if !self.on(P07) {
+            if let Some(hs) = rd.hs() {
+                self.b.nb[ni].last_hs = hs.clone();
+            }
+            return;
+        }
+        // ---- entries to persist: exactly the unstable suffix, each (index, term) once
+        let un = &rn.raft.raft_log.unstable.entries;
+        if rd.entries().len() != un.len() || rd.entries().iter().zip(un.iter()).any(|(a, b)| a != b) {
+            self.violation("C07", "entries-not-unstable-suffix", format!("node {}: Ready.entries is not the current unstable suffix", id), op);
+        }
+        for e in rd.entries() {
+            if self.b.nb[ni].handed_persist.get(&e.index) == Some(&e.term) {
+                self.violation(
+                    "C07",
+                    "entry-handed-for-persistence-twice",
+                    format!("node {}: entry ({}, {}) handed out for persistence a second time without a rewrite in between", id, e.index, e.term),
+                    op,
+                );
+                break;
+            }
+        }
+        if let Some(first) = rd.entries().first() {
+            let fi = first.index;
+            self.b.nb[ni].handed_persist.retain(|i, _| *i < fi);
+        }
+        for e in rd.entries() {
+            self.b.nb[ni].handed_persist.insert(e.index, e.term);
+        }
+        // ---- hard state and must_sync
+        let cur = rn.raft.hard_state();
+        let last = self.b.nb[ni].last_hs.clone();
+        match rd.hs() {
+            Some(hs) => {
+                if *hs != cur {
+                    self.violation("C07", "hs-not-latest", format!("node {}: Ready.hs {:?} is not the node's current hard state {:?}", id, hs, cur), op);
+                }
+                if *hs == last {
+                    self.violation("C07", "hs-handed-unchanged", format!("node {}: Ready.hs {:?} equals the hard state handed out last", id, hs), op);
+                }
+            }
+            None => {
+                if cur != last {
+                    self.violation("C07", "hs-change-not-handed", format!("node {}: hard state changed {:?} -> {:?} but Ready.hs is None", id, last, cur), op);
+                }
+            }
+        }
+        let tv_changed = cur.term != last.term || cur.vote != last.vote;
+        let want_sync = !rd.entries().is_empty() || !rd.snapshot().is_empty() || tv_changed;
+        if rd.must_sync() != want_sync {
+            self.violation(
+                "C07",
+                "must-sync-wrong",
+                format!(
+                    "node {}: must_sync() == {} but entries: {}, snapshot: {}, term/vote changed: {} (last handed {:?}, now {:?})",
+                    id, rd.must_sync(), rd.entries().len(), !rd.snapshot().is_empty(), tv_changed, last, cur
+                ),
+                op,
+            );
+        }
+        if let Some(hs) = rd.hs() {
+            self.b.nb[ni].last_hs = hs.clone();
+        }
+    }
+
+    pub fn b_on_light_ready(&mut self, ni: usize, l: &LightReady, nodes: &[Node], op: usize) {
+        let ce: Vec<Entry> = l.committed_entries().clone();
+        self.handed_out(ni, &ce, "LightReady", nodes, op);
+        if let Some(c) = l.commit_index() {
+            self.b.nb[ni].last_hs.commit = c;
+        }
+        // messages generated inside advance (leader only): judged with the pre/post of that call
+        if let Some((pre, post)) = self.b.last_advance.take() {
+            if !l.messages().is_empty() && (self.on(P13) || self.on(P15) || self.on(P17)) {
+                let new: Vec<Message> = l.messages()[pre.msgs_len.min(l.messages().len())..].to_vec();
+                self.leader_msgs(ni, &CallKind::AdvanceAppend, &new, &pre, &post, nodes, op);
+            }
+        }
+    }
+
+    // ------------------------------------------------------------------ apply
+
+    pub fn b_on_apply(&mut self, ni: usize, e: &Entry, applied_before: u64, _nodes: &[Node], op: usize) {
+        if (self.on(P07) || self.on(P15)) && e.index != applied_before + 1 {
+            let prop = if self.on(P07) { "C07" } else { "C15" };
+            self.violation(
+                prop,
+                "apply-gap",
+                format!("node {}: the application is about to apply index {} right after {}", ni + 1, e.index, applied_before),
+                op,
+            );
+        }
+    }
+
+    pub fn b_after_apply(&mut self, ni: usize, e: &Entry, new_conf: Option<&ConfState>, _app: &AppState, nodes: &[Node], op: usize) {
+        let is_cc = e.get_entry_type() != EntryType::EntryNormal;
+        if !is_cc {
+            return;
+        }
+        let rn = match nodes[ni].rn.as_ref() {
+            Some(r) => r,
+            None => return,
+        };
+        let conf = ConfView::from_cs(&rn.raft.prs().conf().to_conf_state());
+        let _ = new_conf;
+        let who = self.b.conf_applied_by.entry(e.index).or_default();
+        who.insert(ni);
+        if who.len() >= 2 && new_conf.is_some() {
+            self.flags |= F_CONF_APPLIED_TWO_NODES;
+        }
+        match self.b.conf_hist.get(&e.index) {
+            None => {
+                self.b.conf_hist.insert(e.index, conf);
+            }
+            Some(want) => {
+                if *want != conf && (self.on(P09) || self.on(P15)) {
+                    let want = want.clone();
+                    let prop = if self.on(P09) { "C09" } else { "C15" };
+                    self.violation(
+                        prop,
+                        "config-differs-at-applied-index",
+                        format!(
+                            "node {} after applying index {} has configuration {:?} but another node had {:?} at the same index",
+                            ni + 1, e.index, conf, want
+                        ),
+                        op,
+                    );
+                }
+            }
+        }
+    }
+
+    pub fn b_on_snapshot_installed(&mut self, ni: usize, _s: &Snapshot, _nodes: &[Node], _op: usize) {
+        self.b.snap_installed_on.insert(ni);
+    }
+
+    // ------------------------------------------------------------------ C08
+
+    pub fn b_on_read_issued(&mut self, ni: usize, ctx: &[u8], nodes: &[Node], _op: usize) {
+        let forwarded = nodes[ni].rn.as_ref().map_or(false, |rn| rn.raft.state != StateRole::Leader);
+        self.b.reads.insert(ctx.to_vec(), (ni, self.g.maxcommit, self.g.leader_of.len(), forwarded));
+    }
+
+    fn on_read_state(&mut self, ni: usize, ctx: &[u8], index: u64, op: usize) {
+        let (issuer, maxc, leaders, forwarded) = match self.b.reads.get(ctx) {
+            Some(x) => *x,
+            None => return,
+        };
+        self.flags |= F_READ_ANSWERED;
+        self.b.reads_answered += 1;
+        if forwarded || self.g.leader_of.len() != leaders || self.b.hb_resp_dup || self.b.partition_events > 0 {
+            self.flags |= F_READ_ANSWERED_NONTRIVIAL;
+        }
+        if !self.on(P08) {
+            return;
+        }
+        if issuer != ni {
+            self.violation(
+                "C08",
+                "read-state-on-wrong-node",
+                format!("read {:?} was issued on node {} but its read state appeared on node {}", String::from_utf8_lossy(ctx), issuer + 1, ni + 1),
+                op,
+            );
+        }
+        if index < maxc {
+            self.violation(
+                "C08",
+                "stale-read-index",
+                format!(
+                    "read {:?} (issued on node {} when commit index {} had been reached) was answered with index {}",
+                    String::from_utf8_lossy(ctx), issuer + 1, maxc, index
+                ),
+                op,
+            );
+        }
+    }
+
     pub fn b_after_op(&mut self, _nodes: &[Node], _op: usize) {}
-    pub fn b_finish(&mut self, _nodes: &[Node], _stats: &mut CaseStats) {}
+
+    pub fn b_finish(&mut self, _nodes: &[Node], stats: &mut CaseStats) {
+        stats.reads_answered = self.b.reads_answered;
+    }
 }
